@@ -108,6 +108,49 @@ func runC44(r *Report) {
 	if fn == nil {
 		return
 	}
+	// R44d: what net.SplitHostPort took apart is put together again with net.JoinHostPort (plain
+	// concatenation loses the brackets of an IPv6 literal)
+	nJoin := 0
+	for _, f := range WithAnons(fn) {
+		var parts []ssa.Value
+		for _, s := range CallSites(f, "net.SplitHostPort") {
+			c := s.Instr.(*ssa.Call)
+			for i := 0; i < 2; i++ {
+				if e := extractOf(c, i); e != nil {
+					parts = append(parts, e)
+				}
+			}
+		}
+		nJoin += len(CallSites(f, "net.JoinHostPort"))
+		if len(parts) == 0 {
+			continue
+		}
+		for _, b := range f.Blocks {
+			for _, in := range b.Instrs {
+				bo, ok := in.(*ssa.BinOp)
+				if !ok || bo.Op != token.ADD || shortType(bo.Type()) != "string" {
+					continue
+				}
+				fromSplit := false
+				for _, op := range []ssa.Value{bo.X, bo.Y} {
+					if DependsOn(op, func(v ssa.Value) bool {
+						for _, p := range parts {
+							if v == p {
+								return true
+							}
+						}
+						return false
+					}) {
+						fromSplit = true
+					}
+				}
+				if fromSplit {
+					r.ObSite("R44d", SiteOf(in), "host-port-joined-by-concatenation", false, "a host taken apart with net.SplitHostPort is re-assembled by plain concatenation: an IPv6 literal loses its brackets and the resulting address cannot be dialled")
+				}
+			}
+		}
+	}
+	r.Ob("R44d", fn, "addresses-built-with-JoinHostPort", fn.Pos(), nJoin >= 1, "InitAddress entries are assembled with net.JoinHostPort")
 	covered := map[string]map[string]bool{}
 	for _, s := range Sites(fn, func(in ssa.Instruction) bool { _, ok := in.(*ssa.Store); return ok }) {
 		st := s.Instr.(*ssa.Store)
